@@ -54,7 +54,9 @@ CHECKS['C03'] = dict(
     text='Partial. Proved for all configurations/histories/platform scripts: every tracing call that passed its enable '
          'test ends as exactly one serialised record or exactly one counted discard (calls_recorded_or_discarded, '
          'one_call_one_outcome), the discarded counter is the number of discards mod 2^32 (discarded_counter_exact), a '
-         'record is refused only when it cannot fit an empty packet or the back end answered full (discard_only_if). Not '
+         'record is refused only when it cannot fit an empty packet or the back end answered full (discard_only_if); for '
+         'platforms with one buffer size the first holds along every history with no side condition '
+         '(calls_recorded_or_discarded_always, from the C02 position invariant). Not '
          'proved: that the delivered bytes decode to those records in order without overlap (needs the layout round trip '
          'and the packet position invariant; false on the pinned tree in the corners of findings F8/F9). That part is '
          'evaluated on the implementation: every delivered packet is decoded with the parsed real metadata and compared '
@@ -79,8 +81,10 @@ CHECKS['C06'] = dict(
               'correspondence + protocol oracle on the C tracer log',
     text='Partial. Proved for all configurations/histories: is-open is exactly "the newest effective opening/closing is an '
          'opening"; discarded and sequence accessors equal the numbers of discards and closed packets; opening an open '
-         'packet and closing a closed one are identities. Not proved: callback-protocol clauses and the is-empty clause '
-         '(need the position invariant, false in the corners of F9 and degenerate buffers) - evaluated on the '
+         'packet and closing a closed one are identities; for platforms with one buffer size, after any history packet_size '
+         'is the buffer size, at <= packet_size, an open packet has off_content <= at (is-empty <=> at = off_content) and '
+         'the saved content size is <= packet_size (open_packet_position, is_empty_iff_at_content_start). Not proved: '
+         'callback-protocol clauses (need closed => at = packet_size, false in the corners of F9) - evaluated on the '
          'implementation log by the oracle (tracer-invoked open only on a closed packet after a not-full answer, close '
          'only on an open packet, is-empty until the first record, buffer accessors).',
     note='Trusted: as C03. Known finding F9.',
@@ -88,19 +92,26 @@ CHECKS['C06'] = dict(
 
 CHECKS['C02'] = dict(
     engine='h-runtime',
-    technique='Lean 4 proof (truthful store log of every serialisation primitive, detection of out-of-bounds stores, '
-              'fit check before every record write, no undefined shift) + event-stream correspondence + guard-page / '
-              'assertion oracle on the C tracer',
-    text='Partial. Proved: every serialisation primitive logs exactly the byte range it may modify and touches nothing '
-         'outside it; an out-of-range store is detected and halts the model; a record is serialised only if its size '
-         'at the offset where it is written fits the remaining packet (the check whose absence was finding F8, repaired '
-         'in /repo by a fix: commit); no shift amount reaches its operand width. Not proved: the global statement that '
-         'no history produces an out-of-bounds store (needs the size/serialise agreement for whole operation trees and '
-         'the position invariant). That is decided on the implementation: guard page flush against the buffer end, the C '
-         'assertion, crash detection on every history; ASan/UBSan builds in the thorough tier.',
+    technique='Lean 4 proof (global theorem no_store_outside_the_buffer: position invariant by induction over all API '
+              'histories and platform scripts, composed from the size-pass/serialise-pass agreement of every root, the '
+              'saved-offset lemma of the packet context and the fit checks of the tracing function; hypotheses evaluated '
+              'by the compiled driver on real configurations) + event-stream correspondence + guard-page / assertion / '
+              'sanitizer oracle on the C tracer',
+    text='Full over the model for platforms whose packet buffers all have one size; partial otherwise. Proved '
+         '(no_store_outside_the_buffer): from barectf_init on a buffer of L bytes, after any sequence of API calls (any '
+         'order, misuse included) against any platform script (back-end answers, clock, toggles of is_tracing_enabled '
+         'inside any callback, swaps to buffers of L bytes) no store falls outside the buffer, packet_size is the buffer '
+         'size, at is inside the packet and the offsets saved for the closing write-backs are inside the buffer. '
+         'Hypotheses: CfgOK (power-of-two alignments, distinct packet context member names: executable as cfgOKb, '
+         'proved sound, evaluated on every real configuration the check uses), the property precondition (buffer >= '
+         'header + context), the uint32_t no-wrap conditions (buffers below 512 MiB, records whose size does not wrap). '
+         'Also proved: every serialisation primitive logs exactly the bytes it may modify; size pass = serialise advance '
+         'for every root; no shift amount reaches its operand width. Not proved: platforms installing buffers of '
+         'different sizes (the position invariant is false after a swap that follows an ignored closing: finding F9) - '
+         'decided on the implementation by the guard page, the C assertion, crash detection; ASan/UBSan in thorough.',
     note='Trusted: Lean kernel/standard axioms; differential tie; guard page granularity (upper end exact, lower end page). '
-         'F11 (2^32-bit wrap) is outside every run (unreplayed).',
-    design='5 (C02), 3.2')
+         'F11 (2^32-bit wrap) is outside every run (unreplayed) and outside the theorem (hypothesis).',
+    design='5 (C02), 3.2, 10.7')
 CHECKS['C05'] = dict(
     engine='h-runtime',
     technique='Lean 4 proof (timestamp invariant by induction over all API histories, two modes: inside/outside '
